@@ -6,6 +6,7 @@ discharged syntactically.  No sizes, no weights, no mask draws are ever enumerat
 """
 
 import ast
+import copy
 
 from ..astutil import attr_chain, cond_atoms, const_number
 from ..model import AnalysisIncomplete, ClassInfo, norm_text
@@ -336,7 +337,10 @@ def extract_wiring(p, cls):
                 name = None
                 if isinstance(t, ast.Name):
                     name = t.id
-                    outsym = "deg(%s)" % name
+                    # a local name bound to one layer after another (an unrolled loop): one symbol per layer
+                    used = env.setdefault("#layer-names", {})
+                    used[name] = used.get(name, 0) + 1
+                    outsym = "deg(%s)" % name if used[name] == 1 else "deg(%s#%d)" % (name, used[name])
                     env[name] = ("layer", outsym, {"in": insym, "out": outsym, "is_output": is_out, "node": v})
                 elif attr_chain(t) and attr_chain(t).startswith("self."):
                     slot = attr_chain(t)[5:]
@@ -425,6 +429,24 @@ def extract_wiring(p, cls):
             elif isinstance(st, ast.Expr):
                 # straight-line  lst.append(layer)  (a loop over range(2) written out, or by hand)
                 c = st.value
+                # self._check(args): a private method of the class that only checks and raises
+                if isinstance(c, ast.Call) and isinstance(c.func, ast.Attribute) and isinstance(c.func.value, ast.Name) and c.func.value.id == "self" and c.func.attr.startswith("_") and not c.keywords and all(isinstance(a, ast.Name) for a in c.args):
+                    h = cls.lookup_method(c.func.attr)
+                    if h is not None and not any(c.func.attr in sub.methods for sub in cls.all_subclasses() if sub is not cls):
+                        params = [a for a, _ in h.params()]
+                        if params and params[0] == "self":
+                            params = params[1:]
+                        body = [x for x in h.node.body if not (isinstance(x, ast.Expr) and isinstance(x.value, ast.Constant))]
+                        if len(params) == len(c.args) and body and all(isinstance(x, ast.If) and not x.orelse and all(isinstance(y, ast.Raise) for y in x.body) for x in body):
+                            ren = {pn: a.id for pn, a in zip(params, c.args)}
+                            for x in body:
+                                t2 = copy.deepcopy(x.test)
+                                for nn in ast.walk(t2):
+                                    if isinstance(nn, ast.Name) and nn.id in ren:
+                                        nn.id = ren[nn.id]
+                                if _is_not_all_ge(t2, w):
+                                    w.guard = x
+                    continue
                 if isinstance(c, ast.Call) and isinstance(c.func, ast.Attribute) and c.func.attr == "append" and isinstance(c.func.value, ast.Name) and len(c.args) == 1 and isinstance(c.args[0], ast.Name):
                     lst, item = c.func.value.id, env.get(c.args[0].id)
                     cur = env.get(lst)
@@ -444,6 +466,10 @@ def extract_wiring(p, cls):
                 local_ctor[s.body[0].targets[0].id] = s.body[0].value
                 alt_ctor[s.body[0].targets[0].id] = s.orelse[0].value
                 continue
+            # ... or appended per iteration: if c: lst.append(A(in_degrees=prev, ..)) else: lst.append(B(in_degrees=prev, ..))
+            if isinstance(s, ast.If) and len(s.body) == 1 and len(s.orelse) == 1 and all(isinstance(q, ast.Expr) and isinstance(q.value, ast.Call) and isinstance(q.value.func, ast.Attribute) and q.value.func.attr == "append" and len(q.value.args) == 1 and isinstance(q.value.args[0], ast.Call) and _kw(q.value.args[0], "in_degrees", None) is not None for q in (s.body[0], s.orelse[0])) and norm_text(s.body[0].value.func.value) == norm_text(s.orelse[0].value.func.value) and norm_text(_kw(s.body[0].value.args[0], "in_degrees", None)) == norm_text(_kw(s.orelse[0].value.args[0], "in_degrees", None)):
+                alt_ctor["#append"] = s.orelse[0].value.args[0]
+                s = s.body[0]
             if isinstance(s, ast.Expr) and isinstance(s.value, ast.Call) and isinstance(s.value.func, ast.Attribute) and s.value.func.attr == "append":
                 recv = s.value.func.value
                 key = recv.id if isinstance(recv, ast.Name) else (attr_chain(recv) if attr_chain(recv) and attr_chain(recv).startswith("self.") else None)
@@ -470,10 +496,11 @@ def extract_wiring(p, cls):
             r = p.resolve_expr(cls.module, ctor.func)
             if isinstance(r, ClassInfo):
                 info["ctor_classes"].add(r)
-        if blockvar is not None and blockvar in alt_ctor and isinstance(alt_ctor[blockvar].func, ast.Name):
-            r = p.resolve_expr(cls.module, alt_ctor[blockvar].func)
-            if isinstance(r, ClassInfo):
-                info["ctor_classes"].add(r)
+        for key in (blockvar, "#append"):
+            if key is not None and key in alt_ctor and isinstance(alt_ctor[key].func, (ast.Name, ast.Attribute)):
+                r = p.resolve_expr(cls.module, alt_ctor[key].func)
+                if isinstance(r, ClassInfo):
+                    info["ctor_classes"].add(r)
         if isinstance(ind, ast.Name) and carried is not None and carried[0] == ind.id:
             info["start"] = env.get(ind.id)
             cv = carried[1]
@@ -1026,8 +1053,8 @@ def use_rule(ctx):
                 res.undecide("%s `%s`" % (fi.qualname, norm_text(n)[:60]), "cannot identify the features axis")
             else:
                 res.fail(Finding("DEG-USE", fi.module, fi.qualname, n, "features axis at position %s; expected position 1 ([batch, features, multiplier])" % feat_pos))
-    if n_reshapes < 7:
-        raise AnalysisIncomplete("DEG-USE: %d consumer reshapes found (< 7 confirmed by hand)" % n_reshapes)
+    if n_reshapes < 5:
+        raise AnalysisIncomplete("DEG-USE: %d consumer reshapes found (< 5; the count on the pinned tree is larger, the floor leaves room for merged call sites confirmed by hand)" % n_reshapes)
     return res
 
 
